@@ -40,17 +40,17 @@ def workspace(ck, binp, d):
     q = ck.tier == "quick"
     base = ("CONSTANTS BrokenSiblingPoisons = %s AnyOrder = %s SiblingCounts = %s\nSPECIFICATION Spec\n"
             "INVARIANTS MatchesDefinition BystandersIrrelevant OnlyScriptsRun FoundAreScripts%s\nCHECK_DEADLOCK FALSE\n")
-    counts = "{0, 1, 2, 10, 11}" if q else "{0, 1, 2, 3, 4, 5, 6, 7, 8, 9, 10, 11}"
+    counts = "{0, 1, 2, 12}" if q else "{0, 1, 2, 3, 4, 5, 9, 10, 11, 12}"
     res, rows = tlc_emit(ck, "Workspace", base % ("FALSE", "FALSE", counts, " Emit"), "Workspace (directory contents x selection)", timeout=1500)
     # the directory is read in every order: same outcome (small directories)
-    res2, _ = tlc_emit(ck, "Workspace", base % ("FALSE", "TRUE", "{0, 1, 2, 3}" if q else "{0, 1, 2, 3, 4}", ""), "Workspace (every visiting order)", timeout=1500)
+    res2, _ = tlc_emit(ck, "Workspace", base % ("FALSE", "TRUE", "{0, 1, 2}" if q else "{0, 1, 2, 3, 4}", ""), "Workspace (every visiting order)", timeout=1500)
     # vacuity guard: the named deviation (a rejected sibling refuses every selection) must violate BystandersIrrelevant in the model
     dev = vlib.tlc("Workspace", base % ("TRUE", "FALSE", "{1}", ""), workers=4, timeout=300)
     if dev.invariant not in ("BystandersIrrelevant", "MatchesDefinition"):
         raise vlib.Broken("the Workspace model does not distinguish a poisoning sibling: %s" % dev.out[-800:])
     ck.note("model_detects_poisoning_sibling", True)
     # the runner is launched for the small and the nearly full directories and a sample of the rest; the library judges every row
-    every = 7 if q else 3
+    every = 9 if q else 3
     for i, r in enumerate(rows):
         n = len(r["dir"]) - 1
         r["cli"] = (n <= 1) or (i % every == 0)
@@ -60,7 +60,7 @@ def workspace(ck, binp, d):
     absorb(ck, r, "workspace", cmd=["replay-workspace", "build", "tmp"])
     ck.add("traces_validated_against_impl", len(rows))
     ck.cov["workspace_rule"] = ("Workspace model: every directory made of main.p (15 bodies: no use(), one or two use() calls naming a sibling, a "
-                                "non-script file, a directory, a name without extension, a missing name) and a subset of 11 sibling entries (among them a file named just `.p`) "
+                                "non-script file, a directory, a name without extension, a missing name) and a subset of 12 sibling entries (among them a file named just `.p` and a symbolic link to a script kept elsewhere; thorough: all subsets of up to 5 and of at least 9 entries) "
                                 "(valid .p / .ppl, unparsable, check-failing, link-failing, using another sibling, using main.p, notes.txt, "
                                 "a.p.bak, a directory named sub.p) x 9 selections; TLC checks that the step machine (entries classified one "
                                 "by one, in every order for small directories) computes the declarative outcome and that entries the selection "
